@@ -195,6 +195,15 @@ func events() []*eventDef {
 				withdrawOp("pair-unstake-withdraw", v1(c).Val, v1(c).Stake, 1, c.Tag+"b"),
 			}}
 		}},
+		// two unstakes of the same delegator in one block: two entries of one account in one maturity queue
+		// (added after a seeded change - entries of one delegator folded with a stale tail - escaped the
+		// alphabet in which an account unstaked at most once per block)
+		{Name: "block[unstake(V1,S1,1);unstake(V1,S1,2)]", Kind: "pair-unstake-unstake", Blocks: func(c *C) [][]*op {
+			return [][]*op{{
+				unstakeOp("pair-unstake-unstake", v1(c).Val, v1(c).Stake, 1, c.Tag+"a"),
+				unstakeOp("pair-unstake-unstake", v1(c).Val, v1(c).Stake, 2, c.Tag+"b"),
+			}}
+		}},
 	}
 }
 
